@@ -167,6 +167,17 @@ Event(s, sub) ==
   IF ~HasSub(s, sub) THEN Violation(s)
   ELSE Mk(s, [NoRe EXCEPT !.hcalls = SubOf(s, sub).hs])            \* every current handler once, in subscription order
 
+\* an EVENT during whose dispatch the handler at position p unsubscribes the handler at position q (q = p: itself).  Every
+\* handler subscribed when the event arrived is invoked, in order, except one that was unsubscribed before its turn (q > p);
+\* the removal itself behaves like Unsubscribe (UNSUBSCRIBE goes out when the last handler is removed).
+EventRe(s, sub, p, q) ==
+  IF ~HasSub(s, sub) THEN Violation(s)
+  ELSE LET hs == SubOf(s, sub).hs IN
+       IF p = 0 \/ p > Len(hs) \/ q > Len(hs) \/ q = 0 THEN Event(s, sub)
+       ELSE LET un == Unsubscribe(s, sub, hs[q], q)
+                keep == SelectSeq([i \in 1..Len(hs) |-> i], LAMBDA i : ~(i = q /\ q > p))
+            IN Mk(un.s, [un.re EXCEPT !.hcalls = [k \in 1..Len(keep) |-> hs[keep[k]]]])
+
 \* ---------------------------------------------------------------- onMessage in an established session
 RxSession(s, m, beh) ==
   CASE m.t = "goodbye" -> EndSession(s, IF s.gb THEN <<>> ELSE <<[t |-> "goodbye"]>>)
@@ -197,7 +208,7 @@ RxSession(s, m, beh) ==
          ELSE LET reg == Get(s.pend["unregister"], m.req).x
                   r == Complete(s, "unregister", m.req, TRUE)
               IN Mk([r.s EXCEPT !.regs = @ \ {reg}], r.re)
-    [] m.t = "event" -> Event(s, m.sub)
+    [] m.t = "event" -> EventRe(s, m.sub, m.p, m.q)
     [] m.t = "invocation" -> Invocation(s, m, beh)
     [] m.t = "interrupt" -> Interrupt(s, m.req)
     [] OTHER -> Violation(s)                                   \* handshake messages after the session is established
@@ -237,7 +248,7 @@ RouterMsgs ==
   \cup {[t |-> x, req |-> r] : x \in {"published", "unsubscribed", "unregistered"}, r \in 1..MaxReq}
   \cup {[t |-> "subscribed", req |-> r, sub |-> b] : r \in 1..MaxReq, b \in SubIds}
   \cup {[t |-> "registered", req |-> r, reg |-> g] : r \in 1..MaxReq, g \in RegIds}
-  \cup {[t |-> "event", sub |-> b] : b \in SubIds}
+  \cup {[t |-> "event", sub |-> b, p |-> pq[1], q |-> pq[2]] : b \in SubIds, pq \in {<<0, 0>>, <<1, 1>>, <<1, 2>>, <<2, 1>>, <<2, 2>>}}
   \cup {[t |-> "invocation", req |-> r, reg |-> g, rp |-> p] : r \in 1..MaxReq, g \in RegIds, p \in BOOLEAN}
   \cup {[t |-> "interrupt", req |-> r] : r \in 1..MaxReq}
 
@@ -247,6 +258,7 @@ Next ==
         \* (a router following the session state machine sends WELCOME at most once per connection)
         /\ m.t = "welcome" => Count(hist.cbs, "onJoin") = 0
         /\ m.t = "invocation" => m.req \notin hist.invoked          \* (... and never reuses an invocation request id)
+        /\ (m.t = "event" /\ m.p > 0) => s.nreq < MaxReq            \* (a re-entrant unsubscribe may issue a request: same bound as the API)
         /\ IF m.t \in {"welcome", "challenge"} THEN \E u \in U : Apply(Rx(s, m, u, "value"))
            ELSE IF m.t = "invocation" THEN \E beh \in SyncBehaviours \cup {"pending"} : Apply(Rx(s, m, U0, beh))
            ELSE Apply(Rx(s, m, U0, "value"))
@@ -297,5 +309,6 @@ ExactlyOneTerminalWhileUp ==
 ProgressOnlyWhileRunning ==
   \A i \in 1..Len(re.out) : (re.out[i].t = "yield" /\ re.out[i].progress) => \E x \in s.invs : x.req = re.out[i].req /\ x.rp
 \* C11
-HandlersAreCurrent == \A i \in 1..Len(re.hcalls) : \E x \in s.subs : \E j \in 1..Len(x.hs) : x.hs[j] = re.hcalls[i]
+\* only handlers that were subscribed when the event arrived are invoked (pre-state: a handler may unsubscribe itself while running)
+HandlersWereCurrent == [][\A i \in 1..Len(re'.hcalls) : \E x \in s.subs : \E j \in 1..Len(x.hs) : x.hs[j] = re'.hcalls[i]]_vars
 =============================================================================
